@@ -71,6 +71,18 @@ Record message := mkMsg {
 Definition m_rcpts (msg : message) : list bool := map snd (m_rcpt_list msg).
 Definition m_addrs (msg : message) : list N := map fst (m_rcpt_list msg).
 
+(* the outcome a well-formed reply with three-digit code n is: only its class counts
+   (reply.code[0]), except for the one code the client compares literally (500 after EHLO);
+   "250" after EHLO and "220" after STARTTLS are the R2 of those stages *)
+Definition outcome_of_code (n : N) : outcome :=
+  if n <? 100 then BadCode
+  else if n <? 300 then R2
+  else if n <? 400 then R3
+  else if n <? 500 then R4
+  else if n =? 500 then R500
+  else if n <? 600 then R5
+  else BadCode.
+
 Inductive rclass := C2 | C3 | C4 | C5 | C500.
 Definition is_error (c : rclass) : bool :=      (* Reply.is_error *)
   match c with C4 | C5 | C500 => true | _ => false end.
